@@ -105,7 +105,7 @@ Eigen::Vector3d genLocal(vf::Ctx & c)
 }
 
 enum OpKind { CONSTRUCT, CONSTRUCT_ANCHOR, SET_ANCHOR, RESET, ENU_GEO, ENU_WGS, ENU_ECEF, TO_ECEF, TO_WGS84, FRAME };
-struct Op {int kind; Geo g; Eigen::Vector3d p;};
+struct Op {int kind; Geo g; Eigen::Vector3d p; bool aliased = false;};   // aliased: the argument is the converter's own anchor object
 
 GeodeticCoordinates mk(const Geo & g) {return romea::core::makeGeodeticCoordinates(g.lat, g.lon, g.h);}
 
@@ -141,7 +141,9 @@ void history(vf::Ctx & c)
   bool anchored = false, constructed = false;
   Geo ctr{0, 0, 0};
   int anchorChanges = 0, conversionsAfterChange = 0;
-  bool sawReset = false, sawAuto = false, sawReanchor = false, antiAnchor = false, sameLatLon = false;
+  bool sawReset = false, sawAuto = false, sawReanchor = false, antiAnchor = false, sameLatLon = false, sawAliased = false;
+  bool everAnchored = false;
+  Geo lastAnchor{0, 0, 0};
   for (int k = 0; k < n; ++k) {
     Op op;
     op.p.setZero(); op.g = Geo{0, 0, 0};
@@ -154,10 +156,15 @@ void history(vf::Ctx & c)
       op.kind = ENU_GEO;  // precondition assert(isAnchored_): respected by construction
     }
     switch (op.kind) {
-      case CONSTRUCT: constructed = true; anchored = false; break;
       case CONSTRUCT_ANCHOR:
       case SET_ANCHOR:
-        if (op.kind == SET_ANCHOR && anchored && c.s.flag("same_place_other_height", 1, 4)) {
+        if (op.kind == SET_ANCHOR && anchored && c.s.flag("argument_is_own_anchor_reference", 1, 6)) {
+          // setAnchor(conv.getAnchor()) on an anchored converter: the caller hands back the reference it got from it (what
+          // getAnchor() designates while un-anchored is unspecified, so only the anchored state is used)
+          op.g = lastAnchor;
+          op.aliased = true;
+          sawAliased = true;
+        } else if (op.kind == SET_ANCHOR && anchored && c.s.flag("same_place_other_height", 1, 4)) {
           // re-anchor at exactly the same latitude / longitude, only the height changes
           op.g = ctr;
           op.g.h = c.s.r("a_h", -500.0, 9000.0);
@@ -167,10 +174,12 @@ void history(vf::Ctx & c)
         }
         if (anchored) {sawReanchor = true;}
         constructed = true; anchored = true; ctr = op.g; anchorChanges++;
+        everAnchored = true; lastAnchor = op.g;
         break;
+      case CONSTRUCT: constructed = true; anchored = false; everAnchored = false; break;
       case RESET: anchored = false; sawReset = true; break;
       case ENU_GEO:
-        if (!anchored) {op.g = genAnchor(c); ctr = op.g; anchored = true; sawAuto = true; anchorChanges++;} else {
+        if (!anchored) {op.g = genAnchor(c); ctr = op.g; anchored = true; sawAuto = true; anchorChanges++; everAnchored = true; lastAnchor = op.g;} else {
           op.g = genGeoNear(c, ctr); if (anchorChanges > 1 || sawReset) {conversionsAfterChange++;}
         }
         break;
@@ -196,6 +205,7 @@ void history(vf::Ctx & c)
   if (sawReset) {c.label("reset");}
   if (antiAnchor) {c.label("antimeridian-anchor");}
   if (sameLatLon) {c.label("re-anchor-same-lat-lon-other-height");}
+  if (sawAliased) {c.label("setAnchor(own getAnchor() reference)");}
   c.nontrivial(conversionsAfterChange > 0);
   c.commit();
 
@@ -217,6 +227,15 @@ void history(vf::Ctx & c)
         checkFrameAgainstReference(c, *conv, mA, (w + " construct(anchor)").c_str());
         break;
       case SET_ANCHOR:
+        if (op.aliased) {
+          // the model's anchor after this call is the value the reference designated at the time of the call
+          const GeodeticCoordinates & own = conv->getAnchor();
+          Geo designated{own.latitude, own.longitude, own.altitude};
+          conv->setAnchor(own);
+          mAnch = true; mA = designated;
+          checkFrameAgainstReference(c, *conv, mA, (w + " setAnchor(getAnchor())").c_str());
+          break;
+        }
         conv->setAnchor(mk(op.g));
         mAnch = true; mA = op.g;
         checkFrameAgainstReference(c, *conv, mA, (w + " setAnchor").c_str());
